@@ -598,6 +598,10 @@ package xmpp
 //@   ghost wroteStart bool = false
 //@   ghost wroteEnd bool = false
 //@   ghost flushed bool = false
+//@   ghost st0 SessionState
+//@   callsite (sync.Locker).Lock#1
+//@     havoc s.state
+//@     after: st0 = s.state
 //@   callsite foreign#*
 //@     preserves s.state
 //@   callsite setWriteDeadline#1
@@ -622,10 +626,14 @@ package xmpp
 //@     assert[C05] wroteEnd
 //@     preserves s.state
 //@     after: flushed = ret0 == nil
-//@   ensures[C10] outClosed(old(s.state)) ==> result == ErrOutputStreamClosed
+//@   ensures[C10] outClosed(st0) ==> result == ErrOutputStreamClosed
 //@   ensures[C05] result == nil ==> wroteStart && wroteEnd && flushed
 
 //@ func (*Session).Encode
+//@   ghost st0 SessionState
+//@   callsite (sync.Locker).Lock#1
+//@     havoc s.state
+//@     after: st0 = s.state
 //@   callsite foreign#*
 //@     preserves s.state
 //@   callsite setWriteDeadline#1
@@ -634,9 +642,13 @@ package xmpp
 //@     assert[C10] !outClosed(s.state)
 //@     assert[C05] arg0 == s.out.e && arg1 == v
 //@     preserves s.state
-//@   ensures[C10] outClosed(old(s.state)) ==> result == ErrOutputStreamClosed
+//@   ensures[C10] outClosed(st0) ==> result == ErrOutputStreamClosed
 
 //@ func (*Session).EncodeElement
+//@   ghost st0 SessionState
+//@   callsite (sync.Locker).Lock#1
+//@     havoc s.state
+//@     after: st0 = s.state
 //@   callsite foreign#*
 //@     preserves s.state
 //@   callsite setWriteDeadline#1
@@ -645,7 +657,7 @@ package xmpp
 //@     assert[C10] !outClosed(s.state)
 //@     assert[C05] arg0 == s.out.e && arg1 == v && arg2 == start
 //@     preserves s.state
-//@   ensures[C10] outClosed(old(s.state)) ==> result == ErrOutputStreamClosed
+//@   ensures[C10] outClosed(st0) ==> result == ErrOutputStreamClosed
 
 //@ func (*lockWriteCloser).EncodeToken
 //@   callsite EncodeToken#1
@@ -658,6 +670,14 @@ package xmpp
 //@   callsite Flush#1
 //@     assert[C10] !outClosed(lwc.w.state) && lwc.err == nil
 //@   ensures[C10] old(lwc.err) == nil && outClosed(old(lwc.w.state)) ==> result == ErrOutputStreamClosed
+
+// Closing a token writer goes through the state-checking Flush (so nothing
+// buffered reaches the connection after the closing tag).
+//@ func (*lockWriteCloser).Close
+//@   ghost viaFlush bool = false
+//@   callsite (*lockWriteCloser).Flush#1
+//@     after: viaFlush = true
+//@   ensures[C10] old(lwc.err) == nil ==> viaFlush
 
 // Reads after the input was closed fail with the input-closed error.
 //@ func (*lockReadCloser).Token
